@@ -1046,3 +1046,7 @@ V("shaving-counters-branchless", "break", ["C15", "C17"], SH, None, None, "the t
   "shaving_consistency_algorithm", expect_rule=None,
   edits=[{"old": "        if has_shaved:\n            statistics[STATS_IDX_ALG_SHAVING_CHANGE_NB] += 1\n        else:\n            statistics[STATS_IDX_ALG_SHAVING_NO_CHANGE_NB] += 1\n",
           "new": "        statistics[STATS_IDX_ALG_SHAVING_CHANGE_NB] += has_shaved\n        statistics[STATS_IDX_ALG_SHAVING_NO_CHANGE_NB] += ~has_shaved\n        if not has_shaved:\n"}])
+# ---- round 6: in-place update of the parameters (C07-x2)
+V("affine-geq-negates-parameters", "break", ["C01", "C07", "C08"], P + "affine_geq_propagator.py", "    domain_sum_min = domain_sum_max = parameters[-1]\n",
+  "    parameters *= -1\n    parameters *= -1\n    domain_sum_min = domain_sum_max = parameters[-1]\n", "the parameters array (a view of the problem's table) updated in place", "compute_domains_affine_geq",
+  expect_rule="R-PROP-EFFECTS")
